@@ -66,6 +66,19 @@ def over_cap_pairs():
     return eps
 
 
+def preencoded_pairs():
+    """answers that already carry a Content-Encoding (a backend that compresses itself): left as they are, whether the
+    handler calls WriteHeader or lets the first Write do it, whatever the status"""
+    eps = []
+    for enc in ("br", "gzip", "deflate"):
+        for wh in ([], ["wh:200"], ["wh:404"]):
+            for chain, plain in (("gz.5.10.text%2F", "none"), ("log+gz.-1.0.text%2F", "log"), ("gz.9.1.text%2F+hdr", "hdr")):
+                ops = ["sh:Content-Type:text%2Fplain", "sh:Content-Encoding:" + enc] + wh + ["w:600:3", "w:300:7"]
+                eps.append(["# meta %d %s" % (10 if "5.10" in chain else (1 if "9.1" in chain else 0), "text%2F"),
+                            rwgen.line(chain, "GET", "gzip", "-", 0, "cl", ops), rwgen.line(plain, "GET", "gzip", "-", 0, "cl", ops)])
+    return eps
+
+
 def stream_pairs():
     """handlers that flush while they write (event streams, ndjson) behind the plugin: status,
     encoding header and body must still be the backend's"""
@@ -220,7 +233,7 @@ def check(ctx):
     binary = c14.build(ctx)
     d = C.Differential(ctx, binary, timeout=1200)
     n = 2500 if ctx.thorough() else 350
-    episodes = [gen_pair(ctx.rng) for _ in range(n)] + [gen_pair(ctx.rng, big=True) for _ in range(6 if ctx.thorough() else 2)] + over_cap_pairs() + stream_pairs()
+    episodes = [gen_pair(ctx.rng) for _ in range(n)] + [gen_pair(ctx.rng, big=True) for _ in range(6 if ctx.thorough() else 2)] + over_cap_pairs() + stream_pairs() + preencoded_pairs()
     corpus = C.load_corpus(ID)
     bad = d.check(corpus + episodes, oracle=oracle_pair, label="gzip")
     sess = []
